@@ -515,6 +515,7 @@ func c20ExtractDelivery(e *ext) {
 		e.fail("IsCfgAvailable not found")
 	}
 	fmt.Fprintf(&e.out, "def availLockKind : String := %s\n", leanStr(availLock))
+	c20ExtractLazyInit(e)
 	fmt.Fprintf(&e.out, "def availSyncsOnFirstUse : Bool := %v\n", availSync)
 
 	// ---- triggerAllNodeEnqueue: one q.Add per item of the listed NodeList, no filter in the loop
@@ -537,6 +538,135 @@ func c20ExtractDelivery(e *ext) {
 		e.fail("triggerAllNodeEnqueue not found")
 	}
 	fmt.Fprintf(&e.out, "def enqueueAllShape : String := %s\n", leanStr(enq))
+}
+
+// C20 extension (round 3):
+//   * availSections: the critical-section structure of IsCfgAvailable, as the sequence (source order) of
+//       lock / unlock   calls on the cache lock (a `defer …Unlock()` holds the lock to the end and is not listed),
+//       check           a read of the `available` field in an assignment or an if-condition,
+//       read            GetConfigMapForCache,
+//       sync            syncConfig (syncNodeSLOSpecIfChanged = lock, sync, unlock)                — Model/C20Race.lean shapeOf
+//   * sectionDecoders: per calculate*Merged, the call that decodes the section text; json.Unmarshal rejects a text that is not
+//     exactly ONE JSON value, a stream decoder would accept a valid prefix                          — SecIn.bad = strict reading
+func c20ExtractLazyInit(e *ext) {
+	d := "pkg/slo-controller/nodeslo"
+	mentionsField := func(n ast.Node, field string) bool {
+		found := false
+		if n == nil {
+			return false
+		}
+		ast.Inspect(n, func(x ast.Node) bool {
+			if sel, ok := x.(*ast.SelectorExpr); ok && sel.Sel.Name == field {
+				found = true
+			}
+			return true
+		})
+		return found
+	}
+	callsOf := func(n ast.Node) []string {
+		var out []string
+		if n == nil {
+			return out
+		}
+		ast.Inspect(n, func(x ast.Node) bool {
+			if _, ok := x.(*ast.FuncLit); ok {
+				return false
+			}
+			if c, ok := x.(*ast.CallExpr); ok {
+				out = append(out, types.ExprString(c.Fun))
+			}
+			return true
+		})
+		return out
+	}
+	sections := []string{"missing"}
+	if fd := e.funcDecl(d, "SLOCfgHandlerForConfigMapEvent", "IsCfgAvailable"); fd != nil && fd.Body != nil {
+		sections = []string{}
+		callEvents := func(n ast.Node) {
+			for _, fn := range callsOf(n) {
+				switch {
+				case strings.Contains(fn, ".lock.") && (strings.HasSuffix(fn, ".RLock") || strings.HasSuffix(fn, ".Lock")):
+					sections = append(sections, "lock")
+				case strings.Contains(fn, ".lock.") && (strings.HasSuffix(fn, ".RUnlock") || strings.HasSuffix(fn, ".Unlock")):
+					sections = append(sections, "unlock")
+				case strings.HasSuffix(fn, "GetConfigMapForCache"):
+					sections = append(sections, "read")
+				case strings.HasSuffix(fn, ".syncConfig"):
+					sections = append(sections, "sync")
+				case strings.HasSuffix(fn, ".syncNodeSLOSpecIfChanged"):
+					sections = append(sections, "lock", "sync", "unlock")
+				}
+			}
+		}
+		var walk func(list []ast.Stmt)
+		walk = func(list []ast.Stmt) {
+			for _, st := range list {
+				switch v := st.(type) {
+				case *ast.DeferStmt:
+					// a deferred unlock releases at return: the section extends to the end
+				case *ast.AssignStmt:
+					for _, r := range v.Rhs {
+						if mentionsField(r, "available") {
+							sections = append(sections, "check")
+						}
+					}
+					callEvents(v)
+				case *ast.IfStmt:
+					if v.Init != nil {
+						walk([]ast.Stmt{v.Init})
+					}
+					if mentionsField(v.Cond, "available") {
+						sections = append(sections, "check")
+					}
+					callEvents(v.Cond)
+					walk(v.Body.List)
+					if eb, ok := v.Else.(*ast.BlockStmt); ok {
+						walk(eb.List)
+					} else if ei, ok := v.Else.(*ast.IfStmt); ok {
+						walk([]ast.Stmt{ei})
+					}
+				case *ast.BlockStmt:
+					walk(v.List)
+				case *ast.ReturnStmt:
+					// `return p.cfgCache.available` reports the flag, it does not guard the sync; calls in it still count
+					callEvents(v)
+				case *ast.ExprStmt:
+					if fn, _ := st.(*ast.ExprStmt).X.(*ast.CallExpr); fn != nil {
+						name := types.ExprString(fn.Fun)
+						if strings.HasPrefix(name, "klog.") {
+							continue
+						}
+					}
+					callEvents(v)
+				default:
+					callEvents(v)
+				}
+			}
+		}
+		walk(fd.Body.List)
+	} else {
+		e.fail("IsCfgAvailable not found")
+	}
+	fmt.Fprintf(&e.out, "def availSections : List String := [%s]\n", c20QuoteAll(sections))
+
+	var decs []string
+	for _, fn := range []string{"calculateResourceThresholdCfgMerged", "calculateResourceQOSCfgMerged",
+		"calculateCPUBurstCfgMerged", "calculateSystemConfigMerged", "calculateHostAppConfigMerged"} {
+		fd := e.funcDecl(d, "", fn)
+		if fd == nil || fd.Body == nil {
+			e.fail("%s not found", fn)
+			continue
+		}
+		var found []string
+		for _, c := range callsOf(fd.Body) {
+			last := c[strings.LastIndex(c, ".")+1:]
+			if strings.Contains(last, "Unmarshal") || strings.Contains(last, "Decode") {
+				found = append(found, c)
+			}
+		}
+		decs = append(decs, strings.Join(found, " + "))
+	}
+	fmt.Fprintf(&e.out, "def sectionDecoders : List String := [%s]\n", c20QuoteAll(decs))
 }
 
 func c20QuoteAll(ss []string) string {
